@@ -26,6 +26,8 @@ pub enum Op {
     CreateUser,
     SetPermissions,
     Snapshot { reclaim: bool },
+    /// `snapshot <reclaim> d|a`: one command naming two databases
+    SnapshotNamed { reclaim: bool },
     /// a conflicting versioned write on the arbiter database followed by the arbiter's resolve
     ConflictAndResolve { resolver_node: usize },
     ClusterState,
@@ -46,6 +48,7 @@ impl Op {
             Op::CreateUser => "create-user",
             Op::SetPermissions => "set-permissions",
             Op::Snapshot { .. } => "snapshot",
+            Op::SnapshotNamed { .. } => "snapshot-named",
             Op::ConflictAndResolve { .. } => "resolve",
             Op::ClusterState => "cluster-state",
             Op::MetricsState => "metrics-state",
@@ -91,7 +94,13 @@ fn gen(rng: &mut Rng) -> Program {
                 9 => Op::CreateDb,
                 10 => Op::CreateUser,
                 11 => Op::SetPermissions,
-                12 => Op::Snapshot { reclaim: rng.chance(1, 3) },
+                12 => {
+                    if rng.chance(1, 2) {
+                        Op::Snapshot { reclaim: rng.chance(1, 3) }
+                    } else {
+                        Op::SnapshotNamed { reclaim: rng.chance(1, 3) }
+                    }
+                }
                 13 | 14 => Op::ConflictAndResolve { resolver_node: rng.below(nodes as u64) as usize },
                 _ => {
                     if rng.chance(1, 2) {
@@ -280,6 +289,9 @@ fn execute(prog: Program) -> Outcome {
             }
             Op::Snapshot { reclaim } => {
                 sessions[node].exec(&format!("snapshot {}", reclaim));
+            }
+            Op::SnapshotNamed { reclaim } => {
+                sessions[node].exec(&format!("snapshot {} d|a", reclaim));
             }
             Op::ClusterState => {
                 sessions[node].exec("cluster-state");
